@@ -339,6 +339,13 @@ func (pc ParseContext) compileSetPattern(ctx context.Context, b ast.Branch) (rel
 		if err != nil {
 			return nil, err
 		}
+		seen := make(map[string]struct{}, len(patterns))
+		for _, p := range patterns {
+			if _, duplicated := seen[p.String()]; duplicated {
+				return nil, fmt.Errorf("item %s is duplicated in set pattern", p)
+			}
+			seen[p.String()] = struct{}{}
+		}
 		return rel.NewSetPattern(patterns...), nil
 	}
 	return rel.NewSetPattern(), nil
